@@ -75,14 +75,21 @@ def check_table(T):
             return "nodeidx", "get_node_indices(%d) differs" % no
     if not np.allclose(dom.get_node_position(nnos).T, npos[:, :dom.dim], rtol=1e-13, atol=1e-13):
         return "nodepos", "get_node_position differs"
+    # all evaluations first, comparisons afterwards: a result must stay what it was when later points are evaluated
+    held = []
     for t, Nv, dN in T["shape"]:
         pos = np.array([t[d] / 4 * size[d] for d in range(3)])
+        p0 = pos.copy()
+        held.append((dom.eval_shape_fun(pos), dom.eval_shape_fun_der(pos)))
+        if not np.array_equal(pos, p0):
+            return "shape-argument", "evaluating the shape functions changed the position array it was given"
+    for (t, Nv, dN), (got, gd_held) in zip(T["shape"], held):
+        pos = np.array([t[d] / 4 * size[d] for d in range(3)])
         Ne = np.array([q(v) for v in Nv])
-        got = dom.eval_shape_fun(pos)
         if got.shape != Ne.shape or not np.allclose(got, Ne, rtol=1e-12, atol=1e-13):
             return "shapefn", "eval_shape_fun(%s) = %s, specification %s" % (pos.tolist(), got.tolist(), Ne.tolist())
         dNe = np.array([[q(v) for v in row] for row in dN])
-        gd = dom.eval_shape_fun_der(pos)
+        gd = gd_held
         if gd.shape != dNe.shape or not np.allclose(gd, dNe, rtol=1e-12, atol=1e-13):
             return "shapeder", "eval_shape_fun_der(%s) = %s, specification %s" % (pos.tolist(), gd.tolist(), dNe.tolist())
     return None
